@@ -72,6 +72,12 @@ func checkC18(c *Case, r *Rec) error {
 		}
 		return nil
 	}
+	if c.Kind == "structure" {
+		if structurallyImpossible(v) && h(v) {
+			return violation("", "C18: the default handler for %q accepts %q, which no CSS value space contains (unbalanced bracket or quotation mark, or a '|')", prop, v)
+		}
+		return nil
+	}
 	if c.Kind == "number" {
 		if cssNumberLike.MatchString(v) && !cssNumber.MatchString(v) && h(v) {
 			return violation("", "C18: the default handler for %q accepts %q, which is not a CSS number", prop, v)
@@ -358,6 +364,10 @@ func fixedC18(r *Rec, tier string, shard, nshards int) []*Case {
 	fails = append(fails, nf...)
 	totalCalls += ncalls
 	r.ClassN("malformed_number_calls", ncalls)
+	sf, scalls := structuralStage(props)
+	fails = append(fails, sf...)
+	totalCalls += scalls
+	r.ClassN("structural_damage_calls", scalls)
 	r.SetExtra("handlers_with_open_identifier_space", free)
 	r.EvalN(totalCalls)
 	r.SetExtra("handlers_checked", len(props))
